@@ -49,6 +49,7 @@ pub fn run(job: &Value) {
         };
         let mut rep = Rep { case: case.to_json(), nviol: 0 };
         let (mut calls, mut pairs) = (0u64, 0u64);
+        let mut not_sync = 0u64;
         let dbg0 = s.debug();
         let snapshot = s.clone_box();
         let rebuilt = subject(case).expect("rebuild");
@@ -128,6 +129,7 @@ pub fn run(job: &Value) {
         {
             let sref: &dyn Subject = s.as_ref();
             let tseeds: Vec<u64> = (0..8).map(|t| mix(&[vseed, idx as u64, t, 0xF])).collect();
+            // fresh clones per stream for the single-threaded reference (a subject may keep a scratch buffer)
             let single: Vec<Vec<u64>> = tseeds
                 .iter()
                 .map(|&sd| {
@@ -138,25 +140,20 @@ pub fn run(job: &Value) {
                     }
                 })
                 .collect();
-            let threaded: Vec<Vec<u64>> = std::thread::scope(|sc| {
-                let hs: Vec<_> = tseeds
-                    .iter()
-                    .map(|&sd| {
-                        sc.spawn(move || {
-                            let mut r = srng(sd);
-                            std::panic::catch_unwind(std::panic::AssertUnwindSafe(|| (0..300).map(|_| sref.call_hash(&mut r)).collect::<Vec<u64>>())).unwrap_or_default()
-                        })
-                    })
-                    .collect();
-                hs.into_iter().map(|h| h.join().unwrap_or_default()).collect()
-            });
-            calls += 4800;
-            pairs += 2400;
-            if single != threaded {
-                rep.viol("threaded_differs", json!({}));
+            match sref.threaded_hashes(&tseeds, 300) {
+                Some(threaded) => {
+                    calls += 4800;
+                    pairs += 2400;
+                    if single != threaded {
+                        rep.viol("threaded_differs", json!({}));
+                    }
+                }
+                None => {
+                    not_sync += 1;
+                }
             }
         }
-        emit(&json!({"ev": "case", "case_idx": idx, "case": case.to_json(), "calls": calls, "pairs": pairs, "viol": rep.nviol, "sig": signature(&dbg0)}));
+        emit(&json!({"ev": "case", "case_idx": idx, "case": case.to_json(), "calls": calls, "pairs": pairs, "viol": rep.nviol, "not_sync": not_sync, "sig": signature(&dbg0)}));
         flush();
         subjects.push((idx, s));
     }
